@@ -164,6 +164,8 @@ package keeper
 //@   let cfg := val(BridgeConfigs[b])
 //@   ensures err == nil ==> old(BridgeConfigs)[b] != None && (req.Authority == ms.authority || req.Authority == cfg.Proposer)    // C12: gov_or_proposer
 //@   ensures err == nil ==> val(BridgeConfigs[b]).FinalizationPeriod == cfg.FinalizationPeriod && val(BridgeConfigs[b]).Proposer == cfg.Proposer && val(BridgeConfigs[b]).Challenger == cfg.Challenger   // C05,C12: roles_and_period_unchanged
+//@   ensures old(BridgeConfigs)[b] != None && (req.Authority == ms.authority || req.Authority == cfg.Proposer) && addrOK(1, req.Authority) && b != 0 && req.NewBatchInfo.ChainType != 0 && len(req.NewBatchInfo.Submitter) > 0 && !$hookFailed
+//@        && addrOK(1, cfg.Challenger) && addrOK(1, cfg.Proposer) && cfg.BatchInfo.ChainType != 0 && len(cfg.BatchInfo.Submitter) > 0 && cfg.FinalizationPeriod > 0 && cfg.SubmissionInterval != 0 && cfg.SubmissionStartHeight != 0 ==> err == nil   // C12: entitled_signer_is_never_rejected (INV_CFG)
 //@   assigns BridgeConfigs[b], BatchInfos[(b, *)], perm.admin, events
 
 //@ func (MsgServer) UpdateOracleConfig
@@ -172,6 +174,8 @@ package keeper
 //@   ensures err == nil ==> old(BridgeConfigs)[b] != None && (req.Authority == ms.authority || req.Authority == cfg.Proposer)    // C12: gov_or_proposer
 //@   ensures err == nil ==> val(BridgeConfigs[b]).FinalizationPeriod == cfg.FinalizationPeriod && val(BridgeConfigs[b]).Proposer == cfg.Proposer && val(BridgeConfigs[b]).Challenger == cfg.Challenger   // C05,C12: roles_and_period_unchanged
 //@   ensures err == nil ==> val(BridgeConfigs[b]).OracleEnabled == req.OracleEnabled
+//@   ensures old(BridgeConfigs)[b] != None && (req.Authority == ms.authority || req.Authority == cfg.Proposer) && addrOK(1, req.Authority) && b != 0
+//@        && addrOK(1, cfg.Challenger) && addrOK(1, cfg.Proposer) && cfg.BatchInfo.ChainType != 0 && len(cfg.BatchInfo.Submitter) > 0 && cfg.FinalizationPeriod > 0 && cfg.SubmissionInterval != 0 && cfg.SubmissionStartHeight != 0 ==> err == nil   // C12: entitled_signer_is_never_rejected (INV_CFG)
 //@   assigns BridgeConfigs[b], events
 
 //@ func (MsgServer) UpdateMetadata
@@ -181,6 +185,8 @@ package keeper
 //@   ensures err == nil ==> $hookCalls == 1 && $hookBridge == b && $hookCfg == val(BridgeConfigs[b]) && $hookCfg.Metadata == req.Metadata && $hookCfg.Challenger == cfg.Challenger   // C19: hook_sees_new_metadata
 //@   ensures err == nil ==> old(BridgeConfigs)[b] != None && (req.Authority == ms.authority || req.Authority == cfg.Proposer)    // C12: gov_or_proposer
 //@   ensures err == nil ==> val(BridgeConfigs[b]).FinalizationPeriod == cfg.FinalizationPeriod && val(BridgeConfigs[b]).Proposer == cfg.Proposer && val(BridgeConfigs[b]).Challenger == cfg.Challenger   // C05,C12: roles_and_period_unchanged
+//@   ensures old(BridgeConfigs)[b] != None && (req.Authority == ms.authority || req.Authority == cfg.Proposer) && addrOK(1, req.Authority) && b != 0 && len(req.Metadata) <= 5120 && !$hookFailed
+//@        && addrOK(1, cfg.Challenger) && addrOK(1, cfg.Proposer) && cfg.BatchInfo.ChainType != 0 && len(cfg.BatchInfo.Submitter) > 0 && cfg.FinalizationPeriod > 0 && cfg.SubmissionInterval != 0 && cfg.SubmissionStartHeight != 0 ==> err == nil   // C12: entitled_signer_is_never_rejected (INV_CFG)
 //@   assigns BridgeConfigs[b], perm.admin, events
 
 //@ func (MsgServer) UpdateParams
